@@ -138,7 +138,7 @@ class Unit:
         j = i + 1
         proof_line = None
         fn = None
-        while j < len(L) and j < i + 12:
+        while j < len(L) and j < i + 24:
           s = L[j].strip()
           if s.startswith("#[kani::proof"):
             proof_line = j
